@@ -325,41 +325,13 @@ theorem writeAll_complete (I : InnerEnc) (given : Option Name) (cs : List (List 
 
 /-! ## reset -/
 
-/-- with `encoding` given and `force` (the default), a reset decoder is a fresh decoder -/
-theorem reset_initial_forced (I : Inner) (g : Name) (cs : List (List Nat)) :
-    (runChunks I (.waiting (some g) true []) cs).1.reset true = .waiting (some g) true [] := by
-  have h0 : Inv I (some g) true [] [] (.waiting (some g) true []) := ⟨rfl, rfl, rfl, rfl⟩
-  have h1 := runChunks_inv I (some g) true cs [] [] _ h0
-  cases hs : (runChunks I (.waiting (some g) true []) cs).1 with
-  | waiting g' f b =>
-    rw [hs] at h1
-    obtain ⟨rfl, _, _, _⟩ := h1
-    rfl
-  | decoding E c bufT =>
-    rw [hs] at h1
-    obtain ⟨_, _, _, hE⟩ := h1
-    have : E = g := (hE []).symm
-    subst this; rfl
-  | streaming E c =>
-    rw [hs] at h1
-    obtain ⟨_, hE, _⟩ := h1
-    have : E = g := (hE []).symm
-    subst this; rfl
+/-- a reset decoder is a fresh decoder of the same constructor arguments, whatever state it was in -/
+theorem reset_initial (initial : Option Name) (force : Bool) (s : DSt) :
+    s.reset initial force = .waiting initial force [] := by
+  cases s <;> rfl
 
-/-- with `encoding` given, a reset encoder is a fresh encoder -/
-theorem ereset_initial_given (I : InnerEnc) (g : Name) (cs : List (List Nat)) :
-    (erunChunks I (.waiting (some g) []) cs).1.reset = .waiting (some g) [] := by
-  have h0 : EInv I (some g) [] [] (.waiting (some g) []) := ⟨rfl, rfl, rfl⟩
-  have h1 := erunChunks_inv I (some g) cs [] [] _ h0
-  cases hs : (erunChunks I (.waiting (some g) []) cs).1 with
-  | waiting g' b =>
-    rw [hs] at h1
-    obtain ⟨rfl, _, _⟩ := h1
-    rfl
-  | encoding E c =>
-    rw [hs] at h1
-    obtain ⟨_, hT⟩ := h1
-    have : E = g := (hT []).1.symm
-    subst this; rfl
+/-- a reset encoder is a fresh encoder of the same constructor argument, whatever state it was in -/
+theorem ereset_initial (initial : Option Name) (s : ESt) : s.reset initial = .waiting initial [] := by
+  cases s <;> rfl
 
 end CssVerif.Codec
